@@ -16,6 +16,7 @@ import io
 FILL = 0xEE          # pattern pre-filled into caller buffers
 ERR = "E"            # plan directive: raise OSError at this call
 HUGE = 1 << 20
+EMPTY_RUN = 12       # consecutive empty / failing underlying reads in one call = endless read
 
 
 class HangGuard(BaseException):
@@ -38,7 +39,9 @@ class PlanStream:
         self.plan_exhausted = False
 
     def _take(self, m: int) -> bytes:
-        if len(self.log) >= self.guard:
+        # hang sentinel: too many underlying calls, or EMPTY_RUN calls in a row that delivered
+        # nothing, inside one application-level call -> recorded as an endless read
+        if len(self.log) >= self.guard or (len(self.log) >= EMPTY_RUN and all(g <= 0 for _, g in self.log[-EMPTY_RUN:])):
             self.log.append([m if m is not None and m >= 0 else -1, -2])
             raise HangGuard()
         if self.ncall < len(self.plan):
@@ -79,6 +82,35 @@ class PlanStreamRI(PlanStream):
 
 def make_underlying(data: bytes, plan, hasri: bool, default=HUGE, guard=10_000):
     return (PlanStreamRI if hasri else PlanStream)(data, plan, default, guard)
+
+
+def make_ls_class(dq: bool, ex: str, flavour: int = 0):
+    """LimitedStream, or a subclass overriding its documented hooks: dq = on_disconnect returns
+    normally (None or b"", both allowed by its docstring: 'any return value is ignored');
+    ex = on_exhausted 'default' | 'quiet' (returns b"" / None) | 'raise' (own exception)."""
+    from werkzeug.exceptions import BadRequest
+    from werkzeug.wsgi import LimitedStream
+
+    if not dq and ex == "default":
+        return LimitedStream
+
+    class HookExhausted(BadRequest):
+        pass
+
+    ns = {}
+    if dq:
+        def on_disconnect(self, error=None):
+            return b"" if flavour else None
+        ns["on_disconnect"] = on_disconnect
+    if ex == "quiet":
+        def on_exhausted(self):
+            return None if flavour else b""
+        ns["on_exhausted"] = on_exhausted
+    elif ex == "raise":
+        def on_exhausted(self):
+            raise HookExhausted("input stream exhausted")
+        ns["on_exhausted"] = on_exhausted
+    return type("HookedLimitedStream", (LimitedStream,), ns)
 
 
 def wrap(ls, wrapper: str, bufsize: int):
@@ -146,11 +178,12 @@ def run_trace(case: dict) -> list[dict]:
     data = bytes(case["data"])
     guard = 4 * (len(data) + case["limit"]) + 64
     u = make_underlying(data, case["plan"], case["hasri"], case.get("default", HUGE), guard=10 ** 9)
-    ls = LimitedStream(u, case["limit"], is_max=case["is_max"])
+    dq, ex = bool(case.get("dq", False)), case.get("ex", "default")
+    ls = make_ls_class(dq, ex, len(data) % 2)(u, case["limit"], is_max=case["is_max"])
     obj = wrap(ls, case["wrapper"], case.get("bufsize", 8))
     lines = [{"op": "cfg", "data": list(data), "limit": case["limit"], "is_max": bool(case["is_max"]),
               "hasri": bool(case["hasri"]), "wrapper": case["wrapper"], "bufsize": case.get("bufsize", 8),
-              "exp": case.get("exp", [])}]
+              "exp": case.get("exp", []), "dq": dq, "ex": ex}]
     for i, (op, n) in enumerate(case["ops"]):
         u.guard = len(u.log) + guard
         rec = do_op(obj, op, n, case["wrapper"])
